@@ -338,7 +338,7 @@ fn fmt_values(bits: usize, budget: usize) -> Vec<Limbs> {
 }
 
 fn c09(r: &Runner) {
-    r.set_rule("digits: round trips of every value of the width's universe in every base 2..2^B+2 (B <= 8) resp. a fixed list of 20 bases incl. 2^32+-1, 10^19, 2^63, 2^64-1, 2^B-1 and 0, 1 (invalid); all digit strings up to length ceil(B/log2 b)+2 over {0,1,b-1,b,b+1} for B <= 8; overflow-by-one strings at every width. formatting: 6 traits x 40 format specs x values of S(B) (B <= 10), P/R(B) and the chunk boundaries M^k + d of the four spigot bases; reference = the same spec applied to u128 (when it fits) and to a wrapper over Formatter::pad_integral. parsing: all strings of length <= 2 over a 76-character set (both alphabets, separators, CR/LF, space, multi-byte characters) plus length-3 strings, x every radix 0..=66, plus FromStr prefix sniffing. non-trivial = multi-digit / multi-chunk values or error outcomes");
+    r.set_rule("digits: round trips of every value of the width's universe in every base 2..2^B+2 (B <= 8) resp. a fixed list of 20 bases incl. 2^32+-1, 10^19, 2^63, 2^64-1, 2^B-1 and 0, 1 (invalid); all digit strings up to length ceil(B/log2 b)+2 over {0,1,b-1,b,b+1} for B <= 8; overflow-by-one strings at every width. formatting: 6 traits x 40 format specs x values of S(B) (B <= 10), P/R(B) and the chunk boundaries M^k + d of the four spigot bases; reference = the same spec applied to u128 (when it fits) and to a wrapper over Formatter::pad_integral. parsing: all strings of length <= 2 over an 87-character set (both alphabets, separators, CR/LF, space, multi-byte characters) plus length-3 strings, x every radix 0..=66, plus FromStr prefix sniffing. non-trivial = multi-digit / multi-chunk values or error outcomes");
     let ws = if SWEEP { WIDTHS } else if r.is_thorough() { W_T } else { W_Q };
     // ---- digit conversion
     for &bits in ws {
@@ -463,7 +463,7 @@ fn c09(r: &Runner) {
         });
     }
     // ---- parsing
-    let chars: Vec<char> = "0123456789abcdefghijklmnopqrstuvwxyzABCDEFGHIJKLMNOPQRSTUVWXYZ_+-/,=\r\n .xé€😀".chars().collect();
+    let chars: Vec<char> = "0123456789abcdefghijklmnopqrstuvwxyzABCDEFGHIJKLMNOPQRSTUVWXYZ_+-/,=\r\n .xé€😀\u{131}\u{141}\u{161}\u{15f}\u{10d}\u{13d}\u{661}\u{12b}\u{12f}\u{1f431}\u{ff11}".chars().collect();
     let mut strs: Vec<String> = vec![String::new()];
     for &a in &chars {
         strs.push(a.to_string());
@@ -471,9 +471,9 @@ fn c09(r: &Runner) {
             strs.push([a, b].iter().collect());
         }
     }
-    for &a in &['0', '1', 'z', 'Z', '_', 'g', '9', 'é', '+'] {
+    for &a in &['0', '1', 'z', 'Z', '_', 'g', '9', 'é', '+', '\u{131}'] {
         for &b in &chars {
-            for &c in &['0', '1', 'f', 'z', '_', '/', 'é', '€'] {
+            for &c in &['0', '1', 'f', 'z', '_', '/', 'é', '€', '\u{161}', '\u{15f}'] {
                 strs.push([a, b, c].iter().collect());
             }
         }
